@@ -6,11 +6,11 @@ import Tahoe.Mutable.CheckRepairLemmas
 
 | clause of the statement | theorem(s) |
 |---|---|
-| "reported healthy exactly when there is a single recoverable version with N distinct shares and no other versions" | `healthy_iff` (for every servermap handed to `_make_checker_results`; with verify the verifier removes bad shares from that map first — that step is correspondence + monitor only) |
+| "reported healthy exactly when there is a single recoverable version with N distinct shares and no other versions" | `healthy_iff` (for every servermap handed to `_make_checker_results`), `healthy_with_verify_iff` (with verify: the same over the shares the verifier did not mark bad, for every set of marks; `afterVerify` = the `mark_bad_share` calls, tied by the `b:` ops of the `check` cases) |
 | "Repair without force never discards a newer unrecoverable version" | `repair_refuses_newer_unrecoverable` |
 | "…or picks between competing versions with the same sequence number" | `repair_refuses_merge` |
 | "a successful repair leaves the best version's contents unchanged" | `repair_republishes_best` (the version chosen is the best of the full map; new seqnum above every share in it), `download_version_exact` + `repair_uploads_best_or_nothing` (what is downloaded — from whatever servermap `download_version` ends up consulting — is that version or the repair fails); byte-level equality of download/upload is C09/C10 territory: monitor only here |
-| "…and recoverable from N distinct shares" | composition, stated in C47: `update_goal_covers` (the republish has a proxy for every share number < N) + `success_implies_k_stored` (success ⇒ ≥ k of them stored; all N only if no request failed — `bookkeeping_sound`); that all N are stored after a fault-free repair is monitored on the grid, not a theorem |
+| "…and recoverable from N distinct shares" | composition, stated in C47: `update_goal_covers` (the republish has a proxy for every share number < N) + `success_implies_k_stored` (success ⇒ ≥ k of them stored; all N only if no request failed — `bookkeeping_sound`); and C47 `fault_free_publish_stores_all`: a republish in which no request fails stores all N share numbers |
 | with verify, "N distinct shares" means N distinct GOOD shares: the verifier finds damage the servermap update cannot see | no theorem (the verifier's hash checks are C10's subject; `healthy_iff` starts from the map the verifier leaves behind). Checked by monitors on real grids: a flipped byte in block data, the block-hash-tree root, the encrypted private key (defect repaired as 93bab9f) or the verification key (open finding `verify-misses-corrupt-verification-key`, fixes/C14-verify-verification-key.diff) of one share must make `check(verify=True)` and `check_and_repair(verify=True)` report unhealthy, list that share as corrupt, and agree with each other. Observed and not demanded by the statement: with two damaged shares the verifier lists only the first it meets (health is still False) |
 -/
 namespace Tahoe.C14
@@ -200,5 +200,30 @@ theorem repair_uploads_best_or_nothing (smFull smRead : ServerMap) (force wk : B
   by_cases hm : b ∈ smRead.recoverable
   · left; simp [hm]
   · right; simp [hm]
+
+/-- With verify: the checker reports healthy exactly when, among the shares the verifier did NOT mark bad, there is
+    a single version and it has at least `k` and at least `N` distinct share numbers.  (Which shares the verifier
+    marks is the hash checking of C10 plus the field checks repaired as 93bab9f / 5d94ff9; this theorem covers every
+    set of marks.) -/
+theorem healthy_with_verify_iff (sm : ServerMap) (bads : List (ShareKey × List Nat)) :
+    (makeCheckerResults (afterVerify sm bads)).healthy = true ↔
+    ∃ v, (∃ key, key ∉ bads.map (·.1) ∧ (key, v) ∈ sm.known) ∧
+      (∀ key w, key ∉ bads.map (·.1) → (key, w) ∈ sm.known → w = v) ∧
+      v.k ≤ (afterVerify sm bads).distinctShnums v ∧ v.n ≤ (afterVerify sm bads).distinctShnums v := by
+  rw [healthy_iff]
+  constructor
+  · rintro ⟨v, hloc, huniq, hk, hn⟩
+    refine ⟨v, (located_afterVerify sm bads v).mp hloc, fun key w hk' hw => ?_, hk, hn⟩
+    exact huniq w ((located_afterVerify sm bads w).mpr ⟨key, hk', hw⟩)
+  · rintro ⟨v, hloc, huniq, hk, hn⟩
+    refine ⟨v, (located_afterVerify sm bads v).mpr hloc, fun w hw => ?_, hk, hn⟩
+    obtain ⟨key, hk', hw'⟩ := (located_afterVerify sm bads w).mp hw
+    exact huniq key w hk' hw'
+
+/-- all three shares present, the verifier marks share 1 on server 11: two good shares of three ⇒ not healthy;
+    with no marks the same map is healthy -/
+example : (makeCheckerResults (afterVerify smHealthy [((11, 1), [0])])).healthy = false ∧
+    (afterVerify smHealthy [((11, 1), [0])]).distinctShnums v3 = 2 ∧
+    (makeCheckerResults (afterVerify smHealthy [])).healthy = true := by decide
 
 end Tahoe.C14
